@@ -1,4 +1,5 @@
 import VrpModel.Store
+import VrpModel.MirpGetters
 
 /-!
 # C16 — Formulations are isolated from their source graph and from each other (object-store level)
@@ -95,5 +96,125 @@ theorem getter_idempotent (w : World σ) (k : Nat) :
   cases h : w.slot k with
   | some s => simp [h]
   | none => simp [h]
+
+end Vrp.C16
+
+/-!
+## Instantiation with the three modelled MIRP formulations
+
+The generic theorems above are stated for an arbitrary constructor `mk` and effect `act`.  Here they are
+instantiated with the modelled getters of `VrpModel/MirpGetters.lean` (slot 0 = arc-based, slot 1 = path-based,
+slot ≥ 2 = sequence-based) and the modelled `make_feasible` heuristics of `VrpModel/Heuristics.lean`.
+-/
+namespace Vrp.C16
+open Vrp
+
+/-- the state of one formulation object -/
+inductive Form where
+  | arc (I : ArcInst)
+  | path (P : PathInst)
+  | seq (I : SeqInst)
+
+/-- a call on a formulation object: `make_feasible(high)` or any read-only query -/
+inductive FAct where
+  | heur (high : Rat)
+  | query
+
+/-- the three MIRP getters as constructors from (a copy of) the source graph `src`: slot 0 `get_arc_based`,
+    slot 1 `get_path_based` (scripted sampler `pick`, port frequencies `freqs`; when `estimate_high_cost`
+    raises, the empty pool on `src`), slot ≥ 2 `get_sequence_based(strict)` (when it raises, the bare
+    `SeqInst.new src strict`) -/
+def mkForm (m : Mirp) (freqs : List Rat) (pick : Nat → List Nat → Nat) (strict : Bool) : Nat → Graph → Form
+  | 0, src => .arc ({ m with g := src } : Mirp).getArcBased
+  | 1, src => .path ((({ m with g := src } : Mirp).getPathBased freqs pick).getD { g := src })
+  | _ + 2, src => .seq ((({ m with g := src } : Mirp).getSeqBased strict).getD (SeqInst.new src strict))
+
+/-- effect of a call: `heur high` runs the formulation's own `make_feasible` (an error leaves the object
+    unchanged; the returned solution vector is not part of the object state), `query` changes nothing.
+    `pick` is the scripted sampler that the path-based heuristic takes. -/
+def actForm (pick : Nat → List Nat → Nat) : Form → FAct → Form
+  | .arc I, .heur high => match I.makeFeasible high with | .ok (J, _) => .arc J | .error _ => .arc I
+  | .path P, .heur high => match P.makeFeasible high pick with | .ok (Q, _) => .path Q | .error _ => .path P
+  | .seq I, .heur high => match I.makeFeasible high with | .ok (J, _) => .seq J | .error _ => .seq I
+  | f, .query => f
+
+/-- the world of a freshly built MIRP: its source graph, no formulation requested yet -/
+def mirpWorld (m : Mirp) : World Form := { source := m.g, slot := fun _ => none }
+
+/-- run a history of getter requests and calls on the MIRP `m` -/
+def mirpRun (m : Mirp) (freqs : List Rat) (pick : Nat → List Nat → Nat) (strict : Bool)
+    (ops : List (WOp FAct)) : World Form :=
+  World.run (mkForm m freqs pick strict) (actForm pick) (mirpWorld m) ops
+
+variable (m : Mirp) (freqs : List Rat) (pick : Nat → List Nat → Nat) (strict : Bool)
+
+/-- **the MIRP's source graph is never changed** by requesting the three formulations, running their
+    heuristics or querying them, in any order (instance of `source_unchanged`) -/
+theorem mirp_source_unchanged (ops : List (WOp FAct)) : (mirpRun m freqs pick strict ops).source = m.g :=
+  source_unchanged (mkForm m freqs pick strict) (actForm pick) (mirpWorld m) ops
+
+/-- **non-interference of the MIRP formulations**: the state of formulation `j` after any history depends only
+    on the source and on the calls addressed to `j` (instance of `non_interference`) -/
+theorem mirp_non_interference (ops : List (WOp FAct)) (j : Nat) :
+    (mirpRun m freqs pick strict ops).slot j
+      = (mirpRun m freqs pick strict (ops.filter fun op => op.target = j)).slot j :=
+  non_interference (mkForm m freqs pick strict) (actForm pick) (mirpWorld m) ops j
+
+/-- **order independence of the MIRP getters**: two histories with the same per-slot sub-histories (e.g. the six
+    request orders of the three getters, each followed by its own heuristic run) give the same three
+    formulations (instance of `order_independent`) -/
+theorem mirp_order_independent (ops₁ ops₂ : List (WOp FAct))
+    (h : ∀ j, ops₁.filter (fun op => op.target = j) = ops₂.filter (fun op => op.target = j)) :
+    ∀ j, (mirpRun m freqs pick strict ops₁).slot j = (mirpRun m freqs pick strict ops₂).slot j :=
+  order_independent (mkForm m freqs pick strict) (actForm pick) (mirpWorld m) ops₁ ops₂ h
+
+/-- **requesting a MIRP formulation twice returns the same object**, after any history (instance of
+    `getter_idempotent`) -/
+theorem mirp_getter_idempotent (ops : List (WOp FAct)) (k : Nat) :
+    mirpRun m freqs pick strict (ops ++ [.get k, .get k]) = mirpRun m freqs pick strict (ops ++ [.get k]) := by
+  simp only [mirpRun, World.run, List.foldl_append, List.foldl_cons, List.foldl_nil]
+  exact getter_idempotent _ _ _ k
+
+/-- the three slots really are the three modelled getters applied to the MIRP itself (not to some other graph) -/
+theorem mirp_get_slots :
+    (mirpRun m freqs pick strict [.get 0]).slot 0 = some (.arc m.getArcBased) ∧
+    (mirpRun m freqs pick strict [.get 1]).slot 1
+      = some (.path ((m.getPathBased freqs pick).getD { g := m.g })) ∧
+    (mirpRun m freqs pick strict [.get 2]).slot 2
+      = some (.seq ((m.getSeqBased strict).getD (SeqInst.new m.g strict))) :=
+  ⟨rfl, rfl, rfl⟩
+
+/-- per-slot sub-history of "request each formulation of `l` and run its heuristic, in the order of `l`" -/
+theorem em_filter_getHeur (high : Rat) (l : List Nat) (hn : l.Nodup) (j : Nat) :
+    (l.flatMap fun k => [WOp.get k, WOp.act k (FAct.heur high)]).filter (fun op => op.target = j)
+      = if j ∈ l then [WOp.get j, WOp.act j (FAct.heur high)] else [] := by
+  induction l with
+  | nil => simp
+  | cons k l ih =>
+    rw [List.nodup_cons] at hn
+    rw [List.flatMap_cons, List.filter_append, ih hn.2]
+    by_cases hkj : k = j
+    · subst hkj
+      simp [WOp.target, hn.1]
+    · have hjk : ¬ j = k := fun h => hkj h.symm
+      simp [WOp.target, hkj, hjk]
+
+/-- **the six request orders**: requesting the formulations `l₁` (each request followed by that formulation's
+    heuristic run) in any other order `l₂` gives the same formulations — in particular for the six orders of
+    `[0, 1, 2]` (arc, path, sequence) -/
+theorem mirp_request_order_irrelevant (high : Rat) (l₁ l₂ : List Nat) (hp : l₁.Perm l₂) (hn : l₁.Nodup) (j : Nat) :
+    (mirpRun m freqs pick strict (l₁.flatMap fun k => [.get k, .act k (.heur high)])).slot j
+      = (mirpRun m freqs pick strict (l₂.flatMap fun k => [.get k, .act k (.heur high)])).slot j := by
+  refine mirp_order_independent m freqs pick strict _ _ (fun i => ?_) j
+  rw [em_filter_getHeur high l₁ hn i, em_filter_getHeur high l₂ (hp.nodup_iff.1 hn) i]
+  simp only [hp.mem_iff]
+
+/-- concrete tiny MIRP: the arc-based formulation after "arc getter, sequence getter, arc heuristic" equals the
+    one after "sequence getter, arc getter, arc heuristic" — by the theorem, not by evaluation -/
+example (freqs : List Rat) (pick : Nat → List Nat → Nat) (strict : Bool) :
+    (mirpRun (Mirp.new 1 2) freqs pick strict [.get 0, .get 2, .act 0 (.heur 10)]).slot 0
+      = (mirpRun (Mirp.new 1 2) freqs pick strict [.get 2, .get 0, .act 0 (.heur 10)]).slot 0 := by
+  refine mirp_order_independent _ _ _ _ _ _ (fun j => ?_) 0
+  rcases j with _ | _ | _ | j <;> simp [WOp.target]
 
 end Vrp.C16
